@@ -369,7 +369,30 @@ fn run_case(w: &mut Worker, c: &Case) -> CaseOut {
                 }
                 out.evals += 1;
             }
-            let last = observed.len() - 1;
+            // retries with the clock still rolled back: the refusal must not "wear off" (a refused
+            // operation must not have recorded the earlier time)
+            let retries = (*delta + ops.len()) % 3;
+            let complete = observed.len() == ops.len();
+            if complete {
+                let last_op = *ops.last().unwrap();
+                let back_time = *times.last().unwrap();
+                for rtry in 0..retries {
+                    let at = back_time + CDur::milliseconds(500 * rtry as i64);
+                    match last_op {
+                        Op::Load => {
+                            let _ = load_at(w, at, &mut observed);
+                        }
+                        Op::Read | Op::Save => {
+                            if let Some(rp) = &repo {
+                                target_at(w, rp, last_op == Op::Save, at, &mut observed);
+                            }
+                        }
+                    }
+                    out.evals += 1;
+                }
+                out.h(format!("backward-retries={retries}"));
+            }
+            let last = if complete { ops.len() - 1 } else { observed.len() - 1 };
             for (k, o) in observed.iter().enumerate() {
                 let op = opname(o.op);
                 if o.class == "Watchdog" {
@@ -452,6 +475,8 @@ pub fn run(cfg: &Cfg) -> i32 {
     required.push("traj=backward:load>read_target:back".into());
     required.push("traj=backward:load>read_target>read_target:forward-then-back".into());
     required.push("intermediate-roots=2:expired=2".into());
+    required.push("backward-retries=1".into());
+    required.push("backward-retries=2".into());
     finish(
         cfg,
         ev,
